@@ -24,10 +24,7 @@ OPS = ['~', '&', '|', 'implies', 'equiv', '<=', '<', '==', '!=',
 
 
 def make_autoref(A, manager):
-    abdd = A.BDD.__new__(A.BDD)
-    abdd._bdd = manager
-    abdd.vars = manager.vars
-    return abdd
+    return base.make_autoref(A, manager)
 
 
 class Harness:
